@@ -20,9 +20,9 @@ from harness import core
 from harness.props import _crew_common as CC
 
 MANIFEST_ENTRY = {
-    "text": "Lean theorem C10 proves over the cost model built on the crew-day model: the daily row's cost = sum over methods of (deployment cost + upfront on the first day) + the program's own repair cost, natural-repair cost separate (row_identity); a per-site method's deployment cost of a day = sum over the surveys completed that day of the site's survey cost (method cost when the site cost is 0), for every measurement scale, deployment type, crew count and work plan incl. surveys that exhaust the crew, weather aborts and partial surveys (per_site_once), and exactly once over the days of a resumed survey (per_site_once_multiday); per-day methods pay unit cost x deployed crews, stationary x planned sites (per_day_once); over a run the upfront cost x crews is contained exactly once (upfront_once, upfront_amount); each program repair books its cost exactly once, on the day the leak turns repaired, natural repairs go to the other column (repair_once, repair_on_repair_day); a program without methods costs nothing (no_methods_no_cost). The model follows the code after two fix: commits (component-level per-site charge on completion; stationary component-level daily cost per planned site). Tied on every run to the real constructors, deploy_crews of all four method classes, the real row functions, the first_day wiring read from ldar_sim.py, and the real repair booking; the clauses are evaluated directly on implementation outputs; whole simulations compare timeseries cost columns with wrapper counts.",
+    "text": "Lean theorem C10 proves over the cost model built on the crew-day model: the daily row's cost = sum over methods of (deployment cost + upfront on the first day) + the program's own repair cost, natural-repair cost separate (row_identity); a per-site method's deployment cost of a day = sum over the surveys completed that day of the site's survey cost (method cost when the site cost is 0), for every deployment type, crew count and work plan (the four method classes share the loop; that they do is established by the four-class correspondence, not in Lean) incl. surveys that exhaust the crew, weather aborts and partial surveys (per_site_once), and exactly once over the days of a resumed survey (per_site_once_multiday); per-day methods pay unit cost x deployed crews, stationary x planned sites (per_day_once); over a run the upfront cost x crews is contained exactly once (upfront_once, upfront_amount); each program repair books its cost exactly once, on the day the leak turns repaired, natural repairs go to the other column (repair_once, repair_on_repair_day), and at program level the repair column of the rows sums over a run to the costs of exactly the leaks the program repaired (program_repairs_once); one step of the multi-day charge model is deployDay on that day's one-request plan (surveyCostRun_step_is_deployDay); a program without methods costs nothing (no_methods_no_cost). The model follows the code after two fix: commits (component-level per-site charge on completion; stationary component-level daily cost per planned site). Tied on every run to the real constructors, deploy_crews of all four method classes, the real row functions, the first_day wiring read from ldar_sim.py, and the real repair booking; the clauses are evaluated directly on implementation outputs; whole simulations compare timeseries cost columns with wrapper counts.",
     "design_ref": "DESIGN.md 5.10, 4.2, 4.1",
-    "note": "trusted: Lean kernel + propext/Classical.choice/Quot.sound; hand-written model tied by sampled/exhaustive correspondence; harness adapters and stubs; costs are integers in the model (integer-valued floats are exact in the implementation); sampled repair cost lists (random.choice) are inputs; CSV float formatting (%.5f) of the timeseries is outside; 'monitored site-day' = planned site-day of a stationary method (DESIGN 5.10)",
+    "note": "trusted: Lean kernel + propext/Classical.choice/Quot.sound; hand-written model tied by sampled/exhaustive correspondence; harness adapters and stubs; costs are integers in the model (integer-valued floats are exact in the implementation); sampled repair cost lists (random.choice) are inputs; CSV float formatting (%.5f) of the timeseries is outside; 'monitored site-day' = planned site-day of a stationary method (DESIGN 5.10); 'deployed crew-day' = a crew sent to at least one site with workable weather, also when it then has no time left to travel (method.py:343-344 sets site_visit before the time test)",
     "technique": "Lean 4 proofs over the cost/crew/emission models + differential correspondence with the real classes + direct oracle (+ whole-run trace oracle)",
 }
 
@@ -132,11 +132,23 @@ def oracle_mday(ctx, case, r):
                 ctx.violate("C10:per_day:stationary-not-per-planned-site",
                             "stationary per-day cost != unit cost x planned sites (got %s, expected %s)" % (got, exp), inp)
         else:
-            deployed = {t["crew"] for t in r.trace if t["visited"]}
+            # "deployed crew-day" (reading recorded for DESIGN 5.10): a crew that was sent to at least one
+            # site whose weather allowed work, even if it then had no time left to travel there.  Computed
+            # from the case's weather and the crew assignment, not from the code's site_visit flag.
+            deployed = {t["crew"] for t in r.trace if CC.model_workable(_as_day(case), by_site[t["site"]])}
+            idle = {c for c in deployed if all(t["travel"] == 0 and t["after"][0] == t["before"][0] and not t["after"][3]
+                                               for t in r.trace if t["crew"] == c)}
+            if idle:
+                ctx.count("mday:crew-deployed-without-travel")
             exp = unit * len(deployed)
             if got != exp:
                 ctx.violate("C10:per_day:not-per-deployed-crew",
                             "per-day cost != unit cost x crews that visited a site (got %s, expected %s)" % (got, exp), inp)
+
+
+def _as_day(case):
+    """cost case -> the positions `_crew_common.model_workable` reads (index 6 = consider_weather)"""
+    return (case[0], case[1], None, None, case[5], case[6], case[7], case[8])
 
 
 def oracle_row(ctx, first, ms, rep, nat, res):
@@ -159,8 +171,8 @@ def oracle_prog(ctx, days, rows):
 
 
 def oracle_repair(ctx, case, per_day, status, em):
-    (start, nrd, delay, n, cost, events) = case
-    inp = {"repair": [start, nrd, delay, n, cost, [list(e) for e in events]],
+    (start, nrd, delay, n, cost, events) = case[:6]
+    inp = {"repair": [start, nrd, delay, n, cost, [list(e) for e in events]] + list(case[6:]),
            "impl": [[a, b] for (a, b, _, _) in per_day], "status": status[-1] if status else None}
     rep_total = sum(a for (a, _, _, _) in per_day)
     nat_total = sum(b for (_, b, _, _) in per_day)
@@ -342,19 +354,25 @@ def stage_repair(ctx):
         evs = sorted((ctx.rng.randrange(n), ctx.rng.randint(1, 3), ctx.rng.choice([0, 0, 1, 2, 3]))
                      for _ in range(ctx.rng.choice([0, 1, 1, 1, 2, 3])))
         cases.append((start, nrd, delay, n, ctx.rng.choice([200, 64]), evs))
+    # intermittent repairable leaks (on/off cycles): the booking must not depend on the emitting state
+    for k in range(len(cases)):
+        if ctx.rng.random() < 0.35:
+            cases[k] = cases[k] + (True, ctx.rng.randint(1, 4), ctx.rng.randint(1, 4))
     model = core.LeanDriver("drv_cost").run([K.repair_line(*c) for c in cases])
     for c, ml in zip(cases, model):
         per_day, status, em = K.impl_repair(*c)
         ctx.evaluations += 1
         il = K.repair_reply(per_day)
         if il != ml:
-            ctx.disagree("cost.repair", {"repair": [c[0], c[1], c[2], c[3], c[4], [list(e) for e in c[5]]]}, ml, il)
+            ctx.disagree("cost.repair", {"repair": [c[0], c[1], c[2], c[3], c[4], [list(e) for e in c[5]]] + list(c[6:])}, ml, il)
         oracle_repair(ctx, c, per_day, status, em)
         if not c[5] and any(a != 0 for (a, _, _, _) in per_day):
             ctx.violate("C10:no-methods:repair-cost-without-tag", "repair cost booked for a leak nobody tagged", {"repair": list(c[:5]) + [[]]})
         by = getattr(em, "_tagged_by_company", None)
         ctx.nontrivial.add(("repair", status[-1] if status else "-", "natural" if by == "natural" else "company" if by else "-",
-                            min(c[2], 3), len(c[5]) > 1))
+                            min(c[2], 3), len(c[5]) > 1, len(c) > 6))
+        if len(c) > 6:
+            ctx.count("repair:intermittent")
         ctx.count("repair:" + (status[-1] if status else "-") + "/" + ("natural" if by == "natural" else "company" if by else "-"))
     ctx.traces += len(cases)
 
@@ -428,7 +446,7 @@ def replay(ctx, data):
         oracle_prog(ctx, days, res)
     elif "repair" in inp:
         c = inp["repair"]
-        case = (c[0], c[1], c[2], c[3], c[4], [tuple(e) for e in c[5]])
+        case = (c[0], c[1], c[2], c[3], c[4], [tuple(e) for e in c[5]]) + tuple(c[6:])
         per_day, status, em = K.impl_repair(*case)
         print("impl :", K.repair_reply(per_day))
         print("model:", D.run([K.repair_line(*case)])[0])
